@@ -28,7 +28,7 @@ def install(eng):
                    lambda seed, focus: enum_stale.replay_fs(None, None, None, seed), crosscheck=True)
     eng.enumerator("graph-small-workflows", ["C03", "C04"], GRAPH,
                    lambda seed, focus: enum_graph.replay(None, None, None, seed), crosscheck=True)
-    eng.enumerator("tracking-backend-scripts", ["C07", "C08", "C09", "C17"], BACKEND + CALLBACKS[:1],
+    eng.enumerator("tracking-backend-scripts", ["C02", "C05", "C06", "C07", "C08", "C09", "C17"], BACKEND + CALLBACKS[:1],
                    lambda seed, focus: enum_backend.replay(None, None, None, seed), crosscheck=True)
     eng.enumerator("cancel-many-scripts", ["C17"], ["gwf.plugins.cancel:cancel_many", "gwf.plugins.cancel:cancel",
                                                      "gwf.backends.base:TrackingBackend.cancel"],
@@ -39,9 +39,9 @@ def install(eng):
     # C06, second sentence (exact re-submission set after one change): no lemma generated, decided by this stand-in
     eng.enumerator("cli-rerun-after-one-change", ["C06"], SCHED + CALLBACKS + ["lemma:c06_convergence"], enum_cli.run_c06,
                    always=True)
-    eng.enumerator("cli-interrupted-run", ["C09"], SCHED + CALLBACKS + BACKEND + ["gwf.plugins.run:run"], enum_cli.run_c09, crosscheck=True)
+    eng.enumerator("cli-interrupted-run", ["C09", "C02", "C05"], SCHED + CALLBACKS + BACKEND + ["gwf.plugins.run:run"], enum_cli.run_c09, crosscheck=True)
     HASHES = [k for k in eng.contracts if "SpecHashes" in k or k in ("gwf.core:get_spec_hashes", "gwf.core:hash_spec")]
-    eng.enumerator("cli-spec-hashes", ["C18", "C01", "C06"], HASHES + CALLBACKS + ["gwf.plugins.run:run", "gwf.plugins.touch:touch",
+    eng.enumerator("cli-spec-hashes", ["C18", "C01", "C06", "C15", "C16"], HASHES + CALLBACKS + ["gwf.plugins.run:run", "gwf.plugins.touch:touch",
                    "gwf.plugins.clean:clean", "gwf.plugins.touch:touch_workflow", "gwf.plugins.touch:touch_workflow._visit"],
                    enum_cli.run_c18, crosscheck=True)
     eng.enumerator("cli-clean", ["C15"], ["gwf.plugins.clean:clean", "gwf.plugins.clean:_delete_file"] + FILTERS,
@@ -69,6 +69,8 @@ def install(eng):
     eng.enumerator("ops-command-lines", ["C07"], OPS + BACKEND, enum_ops.run([enum_ops.check_submit, enum_ops.check_submit_history]), always=True)
     eng.enumerator("ops-command-lines-on-failure", ["C17"], OPS + BACKEND, enum_ops.run([enum_ops.check_submit]), crosscheck=True)
     eng.enumerator("ops-state-tables", ["C08"], OPS + BACKEND, enum_ops.run([enum_ops.check_states, enum_ops.check_job_tables]), always=True)
+    eng.enumerator("ops-state-tables-crosscheck", ["C02", "C05", "C06", "C09"], OPS + BACKEND,
+                   enum_ops.run([enum_ops.check_states, enum_ops.check_job_tables]), crosscheck=True)
     # C10: compile_script has no unbounded contract (order of option lines): this bounded stand-in decides that clause
     eng.enumerator("job-scripts-under-bash", ["C10"], OPS, enum_ops.run([enum_ops.check_scripts, enum_ops.check_logs, enum_ops.check_directives]), always=True)
     eng.enumerator("command-failure-kinds", ["C09", "C07", "C17"], ["gwf.backends.utils:call"] + OPS + BACKEND,
